@@ -414,7 +414,17 @@ def run(chk):
                             ok = True
                             how = "on the tensor_complete edge"
                 chk.ob("C09-D5.eject", f.key + f.sig, "addNewNode @%d: a completed tensor is loaded" % c.get("l", 0), ok, f.loc(c), how)
-    chk.floor("C09-D5.eject", nd5, 8, "parking / registration sites in the tensor-based loadConstructedPoint overloads (Global, Fourier)")
+    # the same for every other routine of the two classes that registers tensors (candidate lists)
+    for f in [g for g in db.all_functions(["SparseGrids/tsgGridGlobal.cpp", "SparseGrids/tsgGridFourier.cpp"]) if g.cls in ("TasGrid::GridGlobal", "TasGrid::GridFourier")
+              and short(g.name) not in ("loadConstructedPoint", "beginConstruction") and not g.d.get("islambda")]:
+        for c in f.calls(into_lambda=False):
+            if (callee(c) or "").endswith("DynamicConstructorDataGlobal::addTensor"):
+                nd5 += 1
+                chk.saw(f)
+                ok = bool(must_pass_after(f, c, lambda x: (callee(x) or "").endswith(("GridGlobal::loadConstructedTensors", "GridFourier::loadConstructedTensors"))))
+                chk.ob("C09-D5.eject", f.key + f.sig, "addTensor in %s is followed by loadConstructedTensors on every path" % short(f.name), ok, f.loc(c),
+                       "" if ok else "a candidate tensor whose samples all arrived earlier is registered complete and then neither proposed nor loaded: the samples are dropped at finishConstruction")
+    chk.floor("C09-D5.eject", nd5, 10, "parking / registration sites in the tensor-based loadConstructedPoint overloads (Global, Fourier)")
 
     # ------------------------------------------------------------------ D8
     chk.rule("C09-D8.relatives", "every routine that decides connectivity by enumerating the immediate relatives of an index (single-sample admission, batch promotion of parked samples) "
